@@ -68,7 +68,12 @@ pub struct FnSig {
 
 /// the type a target line instantiates a type parameter with: `B=Block`, or `W=@extw` for an abstract writer
 pub fn inst_ty(s: &str) -> Ty {
-    if s == "@extw" { Ty::ExtW } else { Ty::Named(s.to_string()) }
+    match s {
+        "@extw" => Ty::ExtW,
+        "@sink" => Ty::Sink,
+        "@bytes" => Ty::Bytes,
+        _ => Ty::Named(s.to_string()),
+    }
 }
 
 pub fn lean_ident(s: &str) -> String {
@@ -186,6 +191,12 @@ impl World {
                             }
                         }
                     }
+                    // `TypeName=@sink`: a type of the crate seen through an abstraction (justified by a tie of its own)
+                    for (k, v) in opts {
+                        if v.starts_with('@') {
+                            g.insert(k.clone(), inst_ty(v));
+                        }
+                    }
                     // `only=a,b`: the listed fields (the others have types outside the subset and are not touched
                     // by the translated functions — a function that does touch one is untranslatable)
                     let only: Option<Vec<&str>> = opts.get("only").map(|o| o.split(',').collect());
@@ -205,7 +216,7 @@ impl World {
                         out.push_str(&format!("  {} : {}\n", lean_ident(n), self.lean_ty(t)?));
                     }
                     if !is_ext {
-                        out.push_str("  deriving Repr, DecidableEq\n");
+                        out.push_str("  deriving Repr, DecidableEq, Inhabited\n");
                     }
                     self.structs.insert(name.to_string(), fields);
                     return Ok(out);
@@ -310,7 +321,7 @@ impl World {
                     for (v, _) in &vars {
                         out.push_str(&format!("  | {}\n", lower_first(v)));
                     }
-                    out.push_str("  deriving Repr, DecidableEq\n\n");
+                    out.push_str("  deriving Repr, DecidableEq, Inhabited\n\n");
                     // `x as u8`
                     out.push_str(&format!("def {}.toNat : {} → Nat\n", name, name));
                     let mut next = 0u64;
@@ -351,6 +362,14 @@ fn const_eval(e: &Expr) -> Option<u128> {
     match e {
         Expr::Lit(ExprLit { lit: Lit::Int(i), .. }) => i.base10_parse::<u128>().ok(),
         Expr::Paren(p) => const_eval(&p.expr),
+        // `unsafe { NonZeroUsize::new_unchecked(8) }`
+        Expr::Unsafe(u) if u.block.stmts.len() == 1 => match &u.block.stmts[0] {
+            syn::Stmt::Expr(x, None) => const_eval(x),
+            _ => None,
+        },
+        Expr::Call(c) if c.args.len() == 1 && c.func.to_token_stream().to_string().replace(' ', "") == "NonZeroUsize::new_unchecked" => {
+            const_eval(&c.args[0]).filter(|v| *v != 0)
+        }
         Expr::Binary(b) => {
             let (l, r) = (const_eval(&b.left)?, const_eval(&b.right)?);
             match b.op {
@@ -403,6 +422,12 @@ pub struct Ctx<'w> {
     pub used_compress: bool,
     /// wrappers still alive at the end of the function: (place text, Lean callee, place) dropped before the final return
     pub pending_drops: Vec<(String, String)>,
+    /// rust variables standing for one element of a list place (`if let Some(x) = v.last_mut()`, `split_last_mut`)
+    pub elems: BTreeMap<String, Place>,
+    /// rust variables standing for the elements `[lo, hi)` of a list place: (place, lo, hi) as Lean terms
+    pub heads: BTreeMap<String, (Place, String, String)>,
+    /// `let mut v = &mut place.as_mut_slice()[lo..]` waiting for its `while let Some((last, head)) = v.split_last_mut()`
+    pub views: BTreeMap<String, (Place, String)>,
 }
 
 struct E {
